@@ -194,6 +194,51 @@ def content_scripts(tier, rng, tid0):
         ops.append({"o": "load", "w": 1, "blob": 0})
         scripts.append({"tid": tid, "marker": "simple", "worlds": 2, "ops": ops})
         tid += 1
+    # conversions that fail: marked entities referring to entities without marker (unmarked, dead), saved with the
+    # plain serialiser and a reference conversion that reports this as an error - the save must report the error
+    # (and must not hand out data with the entity left out); then the references are repaired and the save succeeds
+    for gi in range(40 if tier == "quick" else 400):
+        n = rng.randint(2, 6)
+        ops = [{"o": "create", "w": 0, "a": rng.choice([None, 10 + i]), "b": rng.choice([None, -i - 1])} for i in range(n)]
+        marked = sorted(rng.sample(range(n), rng.randint(1, n)))
+        for i in marked:
+            ops.append({"o": "mark", "w": 0, "h": i})
+        for i in range(n):
+            if rng.random() < 0.7:
+                ops.append({"o": "set", "w": 0, "h": i, "c": "r", "v": [rng.randrange(n) for _ in range(rng.randint(1, 6))]})
+        if gi % 3 == 0:
+            ops.append({"o": rng.choice(["delete", "edelete"]), "w": 0, "h": rng.randrange(n)})
+            ops.append({"o": "maintain", "w": 0})
+        fmt = rng.choice(["json", "ron"])
+        ops.append({"o": "save", "w": 0, "rec": False, "fmt": fmt})
+        ops.append({"o": "load", "w": 1, "blob": 0})
+        for i in marked:
+            ops.append({"o": "set", "w": 0, "h": i, "c": "r", "v": [rng.choice(marked) for _ in range(rng.randint(0, 3))] if gi % 2 else None})
+        ops.append({"o": "save", "w": 0, "rec": False, "fmt": fmt})
+        ops.append({"o": "load", "w": 1, "blob": 1})
+        scripts.append({"tid": tid, "marker": "uuid" if gi % 5 == 4 else "simple", "worlds": 2, "fallible": True, "ops": ops})
+        tid += 1
+    # markers taken off by hand and given again (a new id), allocator maintenance, then the old ids come back
+    # (retrieved directly or loaded): after the allocator's maintain an id nobody carries means a new entity
+    for gi in range(40 if tier == "quick" else 400):
+        k = rng.randint(1, 4)
+        ops = [{"o": "create", "w": 0, "a": 20 + i, "b": None} for i in range(k)]
+        ops += [{"o": "mark", "w": 0, "h": i} for i in range(k)]
+        if gi % 3 == 0:
+            ops.append({"o": "save", "w": 0, "rec": False, "fmt": "json"})
+        vs = rng.sample(range(k), rng.randint(1, k))
+        ops += [{"o": "unmark", "w": 0, "h": v} for v in vs]
+        ops += [{"o": "mark", "w": 0, "h": v} for v in vs if rng.random() < 0.8]
+        if gi % 4 != 3:
+            ops.append({"o": "amaintain", "w": 0})
+        if gi % 3 == 0:
+            ops.append({"o": "load", "w": 0, "blob": 0})
+        else:
+            ops += [{"o": "retrieve", "w": 0, "m": m} for m in rng.sample(range(k + 2), rng.randint(1, k + 1))]
+        ops.append({"o": "mark", "w": 0, "h": 0})
+        ops.append({"o": "save", "w": 0, "rec": False, "fmt": "json"})
+        scripts.append({"tid": tid, "marker": "simple", "worlds": 1, "ops": ops})
+        tid += 1
     return scripts
 
 
@@ -220,8 +265,10 @@ def random_scripts(tier, rng, tid0, n):
                 else:
                     ops.append({"o": "ecreate", "w": w})
                 nh[w] += 1
-            elif x < 0.30:
+            elif x < 0.27:
                 ops.append({"o": "mark", "w": w, "h": hk})
+            elif x < 0.30:
+                ops.append({"o": "unmark", "w": w, "h": hk})
             elif x < 0.42:
                 c = rng.choice(["a", "b", "r", "r"])
                 if c == "r":
